@@ -141,6 +141,19 @@ CHECKS = {
         technique='TLA+ electron-counting / builder-cascade spec model-checked by TLC; TLC-generated environments replayed into Protonate.protonate_atom on real Atom objects; hydrogens of replays and corpus runs trace-validated by TLC (count, bond length, separation, single parent, equivariance)',
         text="TLC checks for all 270 environments that the builder cascade adds the declared number of hydrogens and that the statement's complements follow; each environment x planar/tetrahedral/axis-aligned neighbour arrangement x orientations is built from real atoms and protonated, and TLC checks count, X-H length within coordinate rounding, H-H >= 0.5 A and a single heavy neighbour; on corpus runs TLC checks the same clauses for every hydrogen, the complements of complete residues with chain neighbours, and equivariance under lattice rotations.",
         design="5/C17"),
+    "C03": dict(
+        engine="RunHistory",
+        technique="TLA+ run-history spec (process-level state across calls, hazard self-tests) model-checked by TLC; TLC-generated "
+                  "history shapes executed in fresh interpreters under varied hash seed / hash permutation / allocation / cwd / "
+                  "path-vs-stream; digests trace-validated by TLC (Pure)",
+        text="TLC checks that in the model of the process-level state (valence table growth, NCCG parameters, shared Parameters "
+             "object of run.main) equal (content, options) give equal observations over all histories of <= 4 calls and refutes "
+             "three hazard variants; it emits every history shape of three calls over 4 contents (one with an unknown element, one "
+             "multi-conformation, one coupled) x 4 option settings x {single, main}; a seeded selection is executed, each in a "
+             "fresh interpreter with varied PYTHONHASHSEED, Group.__hash__ permutation, allocation pattern, working directory and "
+             "path/stream input, and TLC checks that full-precision digests of all results and the .pka text are equal within each "
+             "history and to the reference run of the same key.",
+        design="5/C03"),
 }
 
 NOT_APPLICABLE = {}
